@@ -21,6 +21,9 @@ def run(ctx):
         # comparison instead of aborting the process
         h2 = ctx.build_harness("h_linalg", libs=(), extra=("-DNDEBUG",), out_name="h_linalg_ndebug")
         ctx.pipe([h2, "lu", "700", "18"], "lu", label="lu-ndebug-search")
+        # … and name the matrix on which the real code died (with and without assertions)
+        if not ctx.failing:
+            ctx.crash_probe([h, "lu", "700", "18"], "lu-crash-probe", start_re=r"^L\b") or ctx.crash_probe([h2, "lu", "700", "18"], "lu-ndebug-crash-probe", start_re=r"^L\b")
     # known finding F7: the absolute pivot test + std::exit
     ctx.pipe([h, "lu-exit"], "lu", label="lu-exit-probe")
     ctx.assumptions += ["std::unordered_map is modelled as a key-unique association list; results are proved independent of its order "
